@@ -221,6 +221,101 @@ def _real_task(task):
     return acc
 
 
+# ---------------------------------------------------------------------------
+# real field: projective scalings chosen so that a NAMED INTERMEDIATE of the published formulas takes a boundary value
+
+def _intermediates(which, p1, p2, Q, d):
+    """intermediates of the published EFD formulas (add-2008-hwcd-3 = unified, add-2008-hwcd-4 = dedicated), computed by the
+    harness from the published description - every one of them is linear in a scaling of p1"""
+    (X1, Y1, Z1, T1), (X2, Y2, Z2, T2) = p1, p2
+    if which == "add_elements":
+        A = (Y1 - X1) * (Y2 - X2) % Q
+        B = (Y1 + X1) * (Y2 + X2) % Q
+        Cc = T1 * 2 * d * T2 % Q
+        D = Z1 * 2 * Z2 % Q
+        return {"A": A, "B": B, "C": Cc, "D": D, "E": (B - A) % Q, "F": (D - Cc) % Q, "G": (D + Cc) % Q, "H": (B + A) % Q,
+                "T1*T2": T1 * T2 % Q, "X1": X1 % Q, "Y1": Y1 % Q, "Z1": Z1 % Q, "T1": T1 % Q}
+    A = (Y1 - X1) * (Y2 + X2) % Q
+    B = (Y1 + X1) * (Y2 - X2) % Q
+    Cc = Z1 * 2 * T2 % Q
+    D = T1 * 2 * Z2 % Q
+    return {"A": A, "B": B, "C": Cc, "D": D, "E": (D + Cc) % Q, "F": (B - A) % Q, "G": (B + A) % Q, "H": (D - Cc) % Q,
+            "X1": X1 % Q, "Y1": Y1 % Q, "Z1": Z1 % Q, "T1": T1 % Q}
+
+
+TARGETS = [1, 2, 3, (1 << 32), (1 << 63), (1 << 64) - 1, 1 << 64, (1 << 64) + 1, 3 << 64, 0xffff << 64, (1 << 127), (1 << 128) - 1, 1 << 128,
+           (1 << 128) + 1, 5 << 128, 1 << 192, (1 << 192) - 1, 7 << 192, (1 << 254), (1 << 255) - 20]
+
+
+def _boundary_task(task):
+    which, pair_index = task
+    acc = Acc()
+    inst, why = T.try_get("ParamsEd25519")
+    if inst is None:
+        acc.degrade("ParamsEd25519 unavailable: %s" % why)
+        return acc
+    m, R = inst.mod, inst.ref
+    fn = getattr(m, which, None)
+    if fn is None:
+        acc.degrade("internal name missing in ed25519_basic: %s" % which)
+        return acc
+    Q, d, L = R.Q, R.d, R.L
+    B = R.B
+    mul = lambda k: R.mul_raw(B, k % L)
+    pairs = [(mul(2), mul(5)), (mul(1), mul(2)), (mul(7), mul(3)), (mul(L - 1), mul(4)), (mul(0x1234567), mul(23773)), (mul(1031), mul(94)),
+             (mul(1), mul(1)), (mul(3), mul(L - 3))]
+    P1, P2 = pairs[pair_index]
+    same_or_opp = P1 == P2 or P1 == R.neg(P2)
+    if which == "_add_elements_nonunfied" and (same_or_opp or R.order_of(R.add(P1, R.neg(P2))) in (1, 2, 4)):
+        return acc
+    want = R.add(P1, P2)
+    n = 0
+    for role in (0, 1):
+        a, b = (P1, P2) if role == 0 else (P2, P1)
+        base = _intermediates(which, ext(a, 1, Q), ext(b, 1, Q), Q, d)
+        for lam2 in (1, 2, Q - 1):
+            for iname, v0 in sorted(base.items()):
+                v0 = v0 * (lam2 if iname not in ("X1", "Y1", "Z1", "T1") else 1) % Q
+                if v0 == 0:
+                    continue
+                inv = pow(v0, -1, Q)
+                for t in TARGETS:
+                    lam1 = t % Q * inv % Q
+                    if lam1 == 0:
+                        continue
+                    got = aff_of(fn(ext(a, lam1, Q), ext(b, lam2, Q)), Q)
+                    n += 1
+                    if got != want:
+                        acc.violation("C12/ed25519/%s/intermediate-boundary" % which,
+                                      {"what": "%s is wrong over GF(2^255-19) for a projective scaling that makes the intermediate %s equal to %s" % (which, iname, hex(t)),
+                                       "replay": {"fn": "add" if which == "add_elements" else "nonu", "inst": inst.desc, "P1": list(a), "P2": list(b), "l1": lam1, "l2": lam2},
+                                       "expected": list(want), "observed": got})
+            acc.seen(("ed25519", which, pair_index, role, lam2))
+    # doubling: intermediates are quadratic in the scaling - use targets that are squares
+    if which == "add_elements":
+        dbl = getattr(m, "double_element", None)
+        from ..ref.numth import sqrt_mod
+        for Pd in (P1, P2):
+            X1, Y1 = Pd
+            vals = {"A": X1 * X1 % Q, "B": Y1 * Y1 % Q, "C": 2 % Q, "J": (X1 + Y1) ** 2 % Q, "G": (Y1 * Y1 - X1 * X1) % Q,
+                    "F": (Y1 * Y1 - X1 * X1 - 2) % Q, "H": (-X1 * X1 - Y1 * Y1) % Q, "E": ((X1 + Y1) ** 2 - X1 * X1 - Y1 * Y1) % Q}
+            for iname, v0 in sorted(vals.items()):
+                if v0 == 0 or dbl is None:
+                    continue
+                for t in TARGETS:
+                    r = sqrt_mod(t % Q * pow(v0, -1, Q) % Q, Q)
+                    if not r:
+                        continue
+                    got = aff_of(dbl(ext(Pd, r, Q)), Q)
+                    n += 1
+                    if got != R.add(Pd, Pd):
+                        acc.violation("C12/ed25519/double_element/intermediate-boundary",
+                                      {"what": "double_element is wrong over GF(2^255-19) for a scaling that makes the intermediate %s equal to %s" % (iname, hex(t)),
+                                       "replay": {"fn": "dbl", "inst": inst.desc, "P": list(Pd), "l": r}, "expected": list(R.add(Pd, Pd)), "observed": got})
+    acc.n(states=n, transitions=n, traces=1)
+    return acc
+
+
 def run(tier, seed):
     acc = Acc()
     b = bounds(tier)
@@ -238,13 +333,16 @@ def run(tier, seed):
         tasks.append(("ladder", name))
     for lo in range(0, 24, 2):
         tasks.append(("real", (lo, lo + 2, seed)))
-    tasks.sort(key=lambda t: -({"pairs": 1, "ladder": 3, "real": 2}[t[0]]) * (T.get(t[1][0] if t[0] == "pairs" else (t[1] if t[0] == "ladder" else "E53")).ref.Q ** 2))
+    for which in ("add_elements", "_add_elements_nonunfied"):
+        for pi in range(8):
+            tasks.append(("bnd", (which, pi)))
+    tasks.sort(key=lambda t: -({"pairs": 1, "ladder": 3, "real": 2, "bnd": 2}[t[0]]) * (T.get(t[1][0] if t[0] == "pairs" else (t[1] if t[0] == "ladder" else "E53")).ref.Q ** 2))
     core.pmerge(_dispatch, tasks, acc)
     return acc
 
 
 def _dispatch(t):
-    return {"pairs": _pairs_task, "ladder": _ladder_task, "real": _real_task}[t[0]](t[1])
+    return {"pairs": _pairs_task, "ladder": _ladder_task, "real": _real_task, "bnd": _boundary_task}[t[0]](t[1])
 
 
 def replay(rec):
